@@ -25,6 +25,14 @@ Fixpoint un_le (s : string) : Z :=
   | String c r => byte c + 256 * un_le r
   end.
 
+(* Round 7. numbercache.Cache.DB(node) returns the view of ONE configured node on the one fastcache of the process: every key
+   is append(c.db, serializer(key)...) with c.db = the NODE name the view was asked for (database_data[i].node, unique per
+   entry), not the name of the ClickHouse DATABASE of that entry (database_data[i].name, by default the same for all). *)
+Record cnode := { n_node : string; n_db : string }.
+Definition node_key (prefix : string) (k : Z) : string := (prefix ++ ser_le8 k)%string.
+Definition view_key_code (n : cnode) (k : Z) : string := node_key (n_node n) k.     (* the code *)
+Definition view_key_by_db (n : cnode) (k : Z) : string := node_key (n_db n) k.      (* seeded C04-g *)
+
 Section KEYED.
   Variable key : row -> Z.          (* CH64 over day || fingerprint || type: oracle *)
   Variable ser : Z -> string.       (* the serializer handed to numbercache.NewCache *)
